@@ -36,20 +36,21 @@ type loopInfo struct {
 }
 
 type Frame struct {
-	fn      *ssa.Function
-	vals    map[ssa.Value]SV
-	args    []SV
-	bind    []SV
-	edges   map[[2]int]*State
-	defers  []deferred
-	rets    []retInfo
-	fi      *FuncInfo
-	isRoot  bool
-	loops   map[*ssa.BasicBlock]*loopInfo
-	oldRun  *Frame
-	oldHeap *State
-	parent  *Frame
-	iters   map[ssa.Value]*mapIter
+	fn       *ssa.Function
+	vals     map[ssa.Value]SV
+	args     []SV
+	bind     []SV
+	edges    map[[2]int]*State
+	defers   []deferred
+	rets     []retInfo
+	fi       *FuncInfo
+	isRoot   bool
+	loops    map[*ssa.BasicBlock]*loopInfo
+	oldRun   *Frame
+	oldRunAt map[string]*Frame
+	oldHeap  *State
+	parent   *Frame
+	iters    map[ssa.Value]*mapIter
 }
 
 type mapIter struct {
@@ -1300,7 +1301,17 @@ func (vc *VC) checkAnchors(fr *Frame, b *ssa.BasicBlock, call *ssa.Call) {
 	}
 	sort.Slice(sites, func(i, j int) bool { return sites[i].Pos() < sites[j].Pos() })
 	for _, a := range fr.fi.C.Anchors {
-		if a.Callee != name || a.Ord < 1 || a.Ord > len(sites) || sites[a.Ord-1] != call {
+		if a.Callee != name || a.C.GoName == "" {
+			continue
+		}
+		if a.Ord != 0 && (a.Ord < 1 || a.Ord > len(sites) || sites[a.Ord-1] != call) {
+			continue
+		}
+		if a.C.Kind == "mark" {
+			if vc.marks == nil {
+				vc.marks = map[string]*State{}
+			}
+			vc.marks[a.C.Label] = vc.st.clone()
 			continue
 		}
 		args := vc.clauseArgsFrame(fr)
